@@ -115,20 +115,26 @@ PROPS = {
         "mc": {
             "quick": [{"module": "MC_Cache", "cfg": "MC_Cache.cfg", "workers": 6},
                       {"module": "MC_Cache", "cfg": "MC_Cache3.cfg", "workers": 6},
-                      {"module": "MC_CacheHist", "cfg": "MC_CacheHist4.cfg", "workers": 1}],
+                      {"module": "MC_CacheHist", "cfg": "MC_CacheHist4.cfg", "workers": 1},
+                      {"module": "MC_Lazy", "cfg": "MC_Lazy.cfg", "workers": 4},
+                      {"module": "MC_LazyOps", "cfg": "MC_LazyOps4.cfg", "workers": 1}],
             "thorough": [{"module": "MC_Cache", "cfg": "MC_Cache.cfg", "workers": 8},
                          {"module": "MC_Cache", "cfg": "MC_Cache3.cfg", "workers": 8},
-                         {"module": "MC_CacheHist", "cfg": "MC_CacheHist5.cfg", "workers": 1}],
+                         {"module": "MC_CacheHist", "cfg": "MC_CacheHist5.cfg", "workers": 1},
+                         {"module": "MC_Lazy", "cfg": "MC_Lazy.cfg", "workers": 8},
+                         {"module": "MC_LazyOps", "cfg": "MC_LazyOps5.cfg", "workers": 1}],
         },
         "rule": "Mode C: every sequential history of 4 (quick) / 5 (thorough) requests over an 8-request alphabet (colliding key families, a leap label, "
                 "three kinds of invalid request) generated by TLC from Cache.tla and replayed after a memo reset; all colliding pairs {(y,11),(10y+1,1)}, {(y,12),(10y+1,2)}; "
                 "Mode B: lock-ordered hook events (hit/miss/fill/refuse) of those replays, of 16-thread runs and of long mixed query histories validated against the memo model; "
-                "every query of the mixed history answered again by a FRESH process; getter orders on LunarDay/LunarHour values. "
+                "every query of the mixed history answered again by a FRESH process (the strategy-object families include requests refused inside the strategy); getter orders on LunarDay/LunarHour values; "
+                "Mode C on the per-value lazy memos: every client program of 4 (quick: 11,640) / 5 (thorough: 192,720) operations (views, via-clone getters, clones, steps over two registers) generated by TLC from Lazy.tla, "
+                "each run on a real LunarDay and a real LunarHour, the reported positions and pillars compared with the fold of Lazy.tla's operators over the program. "
                 "Non-trivial: history steps with a past, hits/fills/refusals, queries that returned, getter orders with distinct getters",
         "exhaustive": {"quick": False, "thorough": False},
         "assumptions": ["thread interleavings of the real code are those the OS produced in this run; all interleavings are explored on Cache.tla only",
                         "the cold-path oracle is the library's own uncached constructor LunarMonth::new and, for mixed queries, a fresh process of the same build"],
-        "level_text": "TLC explores every interleaving of 2-3 threads over the memo model Cache.tla (invariants Correct, NoContagion, KeyInjective, CacheSound, lock discipline; liveness Termination) and generates every short request history; the harness replays each history in the real code and TLC validates answers and the lock-ordered hook events (Hit must return what Fill stored for the same label) against the same model; 16-thread runs and long mixed histories are validated the same way and compared with fresh-process answers",
+        "level_text": "TLC explores every interleaving of 2-3 threads over the memo model Cache.tla (invariants Correct, NoContagion, KeyInjective, CacheSound, lock discipline; liveness Termination) and generates every short request history; a second model, Lazy.tla, describes the per-value lazy memo cells of LunarDay / LunarHour (views, clones, steps) and TLC generates every short client program over two registers; the harness replays each history in the real code and TLC validates answers and the lock-ordered hook events (Hit must return what Fill stored for the same label) against the same model; 16-thread runs and long mixed histories are validated the same way and compared with fresh-process answers",
         "level_note": "trusted: Cache.tla's abstraction of from_ym (bound by the hit/miss/fill/refuse hook events), the guarded hooks, the OS scheduler for real interleavings; answers are compared with the uncached constructor / a fresh process of the same build, so a defect that is history-independent is out of scope here (C02/C03 cover it)",
         "technique": "TLA+ memo model: exhaustive interleavings with TLC, TLC-generated histories replayed into the code, hook-event trace validation",
     },
